@@ -465,7 +465,7 @@ def mutateSource (s : St) (m : Manifest) : Except Reason (Option String) :=
            | none => none) with
     | some _ => (match s.cl.find? src with | some l => .ok (some l.rev) | none => .error "mutate")
     | none => match s.get src with
-      | none => .error "mutate"
+      | none => .error "fault"
       | some none => .error "mutate"
       | some (some l) => .ok (some l.rev)
 
